@@ -97,20 +97,20 @@ const MULTI: [&str; 9] = ["heap", "heap_checked", "fmt", "sys", "toctou", "unche
 fn input_specs(thorough: bool) -> Vec<InputSpec> {
     let mut v = vec![
         // user-space program: most checks fire (no srand: CWE332 fires; .debug_info: CWE215 fires)
-        InputSpec { arch: "x64", templates: MULTI.to_vec(), ext: ExtVariant::Used, elf: ElfKind::DynSections },
+        InputSpec { arch: "x64", templates: MULTI.to_vec(), ext: ExtVariant::Used, elf: ElfKind::DynSections, all_selections: true },
         // kernel module with kernel symbol names
-        InputSpec { arch: "x64", templates: MULTI.to_vec(), ext: ExtVariant::Kernel, elf: ElfKind::RelLkm },
+        InputSpec { arch: "x64", templates: MULTI.to_vec(), ext: ExtVariant::Kernel, elf: ElfKind::RelLkm, all_selections: true },
         // bare input: no extern symbols at all
-        InputSpec { arch: "x64", templates: MULTI.to_vec(), ext: ExtVariant::None, elf: ElfKind::DynMin },
+        InputSpec { arch: "x64", templates: MULTI.to_vec(), ext: ExtVariant::None, elf: ElfKind::DynMin, all_selections: true },
     ];
     if thorough {
         let mut with_prng = MULTI.to_vec();
         with_prng.push("prng");
         with_prng.push("scanf");
-        v.push(InputSpec { arch: "x64", templates: with_prng, ext: ExtVariant::Full, elf: ElfKind::DynSections });
-        v.push(InputSpec { arch: "arm", templates: MULTI.to_vec(), ext: ExtVariant::Used, elf: ElfKind::DynMin });
+        v.push(InputSpec { arch: "x64", templates: with_prng, ext: ExtVariant::Full, elf: ElfKind::DynSections, all_selections: true });
+        v.push(InputSpec { arch: "arm", templates: MULTI.to_vec(), ext: ExtVariant::Used, elf: ElfKind::DynMin, all_selections: true });
         for t in cli_gen::TEMPLATES {
-            v.push(InputSpec { arch: "x64", templates: vec![t], ext: ExtVariant::Full, elf: ElfKind::DynSections });
+            v.push(InputSpec { arch: "x64", templates: vec![t], ext: ExtVariant::Full, elf: ElfKind::DynSections, all_selections: true });
         }
     }
     v
